@@ -363,8 +363,8 @@ func VerifC05Internal() {
 	conn := vNewConn(true)
 	for verb := range stHandlers {
 		ev := vLowerStr(verb)
-		vAssert(len(conn.intHandlers.getHandlers(ev)) >= 1, "state-handler-is-internal")
-		vAssert(len(conn.fgHandlers.getHandlers(ev)) == 0 && len(conn.bgHandlers.getHandlers(ev)) == 0, "state-handler-not-in-user-sets")
+		vAssert(conn.intHandlers.set[ev] != nil, "state-handler-is-internal")
+		vAssert(conn.fgHandlers.set[ev] == nil && conn.bgHandlers.set[ev] == nil, "state-handler-not-in-user-sets")
 	}
 	vReach("end")
 }
